@@ -219,4 +219,120 @@ theorem distinctModules_split (hr : RegsOK s R R') :
 
 end Regs
 
+/-! ### Part 2: generic facts about the walk -/
+
+/-- An error stops the walk of a statement list. -/
+theorem foldl_walkStep_err (reg : Registry) (n : Nat) (b : Bool) (v : List Nat) (e : Err) (L : List Stmt) :
+    L.foldl (walkStep reg n b) (v, some e) = (v, some e) := by
+  induction L with
+  | nil => rfl
+  | cons i L ih => rw [List.foldl_cons]; exact ih
+
+theorem walkStep_none (reg : Registry) (n : Nat) (b : Bool) (v : List Nat) (i : Stmt) :
+    walkStep reg n b (v, none) i =
+      match reg.findModule b i with
+      | none => (v, some (Err.bare (if b then "no-such-submodule" else "no-such-module")))
+      | some im => includeWalk reg n v im := rfl
+
+/-- An error-free walk of `i :: L`: `i` resolves, the walk from its target is error free, and so
+is the walk of `L` from there. -/
+theorem foldl_walkStep_cons_ok {reg : Registry} {n : Nat} {b : Bool} {v w : List Nat} {i : Stmt} {L : List Stmt}
+    (h : (i :: L).foldl (walkStep reg n b) (v, none) = (w, none)) :
+    ∃ im v1, reg.findModule b i = some im ∧ includeWalk reg n v im = (v1, none) ∧
+      L.foldl (walkStep reg n b) (v1, none) = (w, none) := by
+  rw [List.foldl_cons, walkStep_none] at h
+  cases hf : reg.findModule b i with
+  | none =>
+    rw [hf] at h
+    simp only at h
+    rw [foldl_walkStep_err] at h
+    cases h
+  | some im =>
+    rw [hf] at h
+    simp only at h
+    cases hw : includeWalk reg n v im with
+    | mk v1 e1 =>
+      rw [hw] at h
+      cases e1 with
+      | some e => rw [foldl_walkStep_err] at h; cases h
+      | none => exact ⟨im, v1, rfl, hw, h⟩
+
+theorem foldl_walkStep_cons_of {reg : Registry} {n : Nat} {b : Bool} {v v1 : List Nat} {i : Stmt} {im : Mod}
+    (L : List Stmt) (hf : reg.findModule b i = some im) (hw : includeWalk reg n v im = (v1, none)) :
+    (i :: L).foldl (walkStep reg n b) (v, none) = L.foldl (walkStep reg n b) (v1, none) := by
+  rw [List.foldl_cons]
+  congr 1
+  unfold walkStep
+  simp only [hf, hw]
+
+/-- The walk of a statement list only ever adds marks. -/
+theorem foldl_walkStep_mono (reg : Registry) (n : Nat) (b : Bool) (L : List Stmt) (acc : List Nat × Option Err)
+    (x : Nat) (hx : x ∈ acc.1) : x ∈ (L.foldl (walkStep reg n b) acc).1 := by
+  apply foldl_inv (fun acc : List Nat × Option Err => x ∈ acc.1) _ _ _ hx
+  intro a i _ ha
+  unfold walkStep
+  split
+  · exact ha
+  · split
+    · exact ha
+    · exact includeWalk_visited_mono _ _ _ _ _ ha
+
+/-- The start of a walk that has fuel is marked afterwards. -/
+theorem includeWalk_start_mem (reg : Registry) (n : Nat) (v : List Nat) (m : Mod) :
+    m.seq ∈ (includeWalk reg (n + 1) v m).1 := by
+  rw [includeWalk_succ]
+  split
+  · next h => simpa using h
+  · apply foldl_walkStep_mono
+    apply foldl_walkStep_mono
+    exact List.mem_cons_self ..
+
+/-- The start of an error-free walk is marked afterwards. -/
+theorem includeWalk_ok_start_mem {reg : Registry} {n : Nat} {v w : List Nat} {m : Mod}
+    (h : includeWalk reg n v m = (w, none)) : m.seq ∈ w := by
+  cases n with
+  | zero => rw [includeWalk_zero] at h; cases h
+  | succ n =>
+    have := includeWalk_start_mem reg n v m
+    rw [h] at this
+    exact this
+
+/-- A walk from a marked module changes nothing. -/
+theorem includeWalk_of_mem (reg : Registry) (n : Nat) {v : List Nat} {m : Mod} (h : m.seq ∈ v) :
+    includeWalk reg (n + 1) v m = (v, none) := by
+  rw [includeWalk_succ, if_pos (by simpa using h)]
+
+/-- After an error-free walk of a statement list every target is marked, so a second walk of the
+same list changes nothing. -/
+theorem foldl_walkStep_idem {reg : Registry} {n : Nat} {b : Bool} {L : List Stmt} {v w : List Nat}
+    (h : L.foldl (walkStep reg n b) (v, none) = (w, none)) :
+    L.foldl (walkStep reg n b) (w, none) = (w, none) := by
+  have key : ∀ (L : List Stmt) (v : List Nat), L.foldl (walkStep reg n b) (v, none) = (w, none) →
+      ∀ i ∈ L, walkStep reg n b (w, none) i = (w, none) := by
+    intro L
+    induction L with
+    | nil => intro v _ i hi; cases hi
+    | cons j L ih =>
+      intro v h i hi
+      obtain ⟨im, v1, hf, hw, hrest⟩ := foldl_walkStep_cons_ok h
+      rcases List.mem_cons.mp hi with rfl | hi'
+      · have hmem : im.seq ∈ w := by
+          have := foldl_walkStep_mono reg n b L (v1, none) im.seq (includeWalk_ok_start_mem hw)
+          rw [hrest] at this
+          exact this
+        cases n with
+        | zero => rw [includeWalk_zero] at hw; cases hw
+        | succ n =>
+          unfold walkStep
+          simp only [hf]
+          exact includeWalk_of_mem reg n hmem
+      · exact ih v1 hrest i hi'
+  have hk := key L v h
+  clear h key
+  induction L with
+  | nil => rfl
+  | cons j L ih =>
+    rw [List.foldl_cons, hk j (List.mem_cons_self ..)]
+    exact ih fun i hi => hk i (List.mem_cons_of_mem _ hi)
+
 end Goyang.Lemmas.IncludeLink
